@@ -129,7 +129,9 @@ def run(ctx):
             metas.append(("trim", flags, prof, kept))
 
     # ---- (2) routing: several models with different maps alive at once, predicted in shuffled order
-    zones = ["America/Chicago"] + (["Asia/Riyadh", "Australia/Sydney"] if thorough or scale > 1 else [])
+    # west AND east of Greenwich in every tier: local midnight east of Greenwich is the previous day in UTC, so a routing that
+    # reads the date from the UTC instant is only visible there
+    zones = ["America/Chicago", "Australia/Sydney"] + (["Asia/Riyadh", "Europe/Berlin", "Pacific/Auckland"] if thorough or scale > 1 else [])
     data = {}
     for z in zones:
         idx = pd.date_range("2020-01-01", "2022-01-01", freq="h", tz=z, inclusive="left")
